@@ -244,43 +244,87 @@ def run(tier, seed, replay=None):
             samples.append({"args": extra, "new_files": sorted(new), "mutating_syscalls": ["%s %s" % (e[0], e[1][:70]) for e in events if mutating(e)][:12]})
 
     # ------------------------------------------------------------------ edit / regenerate histories
-    n_hist = 4 if tier == "quick" else 40
+    # After every successful step the outputs must be exactly what a fresh generation of the current source with the current
+    # options writes into an empty directory (same binary), and an output whose bytes did not change keeps inode and mtime.
+    STEPS = ("regenerate", "touch", "edit-constant", "edit-dynamic", "edit-callback", "introduce-error", "delete-header", "delete-ui",
+             "toggle-no-dynamic", "make-static", "make-dynamic")
+    n_hist = 8 if tier == "quick" else 80
     for k in range(n_hist):
-        w = make_project(base, "h%d" % k, {"Form.qml": DYNAMIC_QML % ("v0", "a")})
+        opts_o = rng.choice(([], [], ["-O", "out"]))
+        cur = {"title": "v0", "dyn": "a", "cb": "x", "static": False}
+
+        def text_of_cur():
+            if cur["static"]:
+                return STATIC_QML % (cur["title"], cur["dyn"])
+            return ("import qmluic.QtWidgets\nQWidget {\n    windowTitle: \"%s\"\n    QCheckBox { id: chk; onToggled: console.log(\"%s\") }\n"
+                    "    QLabel { enabled: chk.checked; text: chk.checked ? \"%s\" : \"off\" }\n}\n" % (cur["title"], cur["cb"], cur["dyn"]))
+        w = make_project(base, "h%d" % k, {"Form.qml": text_of_cur()})
+        outdir = os.path.join(w, opts_o[1]) if opts_o else w
         outs = ["form.ui", "uisupport_form.h"]
-        prev = None
-        for step in range(6):
-            kind = rng.choice(("regenerate", "touch", "edit-constant", "edit-dynamic", "introduce-error", "regenerate"))
-            src = os.path.join(w, "Form.qml")
+        nodyn = False
+        # the first steps are drawn systematically so that every step kind follows a generation at least once per run
+        plan = ["regenerate", STEPS[(k * 2 + 1) % len(STEPS)], STEPS[(k * 2 + 2) % len(STEPS)]] + [rng.choice(STEPS) for _ in range(5)]
+        src = os.path.join(w, "Form.qml")
+        broken = False
+        for step, kind in enumerate(plan):
             if kind == "touch":
                 os.utime(src)
             elif kind == "edit-constant":
-                open(src, "w").write(DYNAMIC_QML % ("v%d" % (step + 1), "a"))
+                cur["title"] = "v%d" % (step + 1)
             elif kind == "edit-dynamic":
-                open(src, "w").write(DYNAMIC_QML % ("v0", "b%d" % step))
-            elif kind == "introduce-error":
+                cur["dyn"] = "b%d" % step
+            elif kind == "edit-callback":
+                cur["cb"] = "c%d" % step
+            elif kind == "make-static":
+                cur["static"] = True
+            elif kind == "make-dynamic":
+                cur["static"] = False
+            elif kind == "toggle-no-dynamic":
+                nodyn = not nodyn
+            elif kind in ("delete-header", "delete-ui"):
+                victim = os.path.join(outdir, outs[1] if kind == "delete-header" else outs[0])
+                if os.path.exists(victim):
+                    os.unlink(victim)
+            if kind == "introduce-error":
                 open(src, "w").write(ERROR_QML % "\"e\"")
+                broken = True
+            elif kind != "touch":
+                open(src, "w").write(text_of_cur())
+                broken = False
+            opts = opts_o + (["--no-dynamic-binding"] if nodyn else [])
+            expect_error = broken or (nodyn and not cur["static"])
             before = snapshot(w)
-            p = subprocess.run(cli_args(["Form.qml"]), cwd=w, capture_output=True, env=ENV, timeout=120)
+            p = subprocess.run(cli_args(opts + ["Form.qml"]), cwd=w, capture_output=True, env=ENV, timeout=120)
             n_inv += 1
             after = snapshot(w)
-            rp = {"history_step": kind, "step": step}
-            shapes.add(("history", kind))
-            content_now = open(src).read()
-            if "noSuchProperty" in content_now:
-                if p.returncode != 1 or any(after.get(o) != before.get(o) for o in outs):
-                    v.violation("error-run-wrote", "erroneous source: status %s, outputs changed: %r"
-                                % (p.returncode, [o for o in outs if after.get(o) != before.get(o)]), rp)
+            rel = (opts_o[1] + "/") if opts_o else ""
+            rp = {"history": plan[:step + 1], "options": opts, "source": open(src).read(), "stderr": p.stderr.decode("utf-8", "replace")[-500:]}
+            shapes.add(("history", kind, bool(opts_o), nodyn))
+            if expect_error:
+                changed = [o for o in outs if after.get(rel + o) != before.get(rel + o)]
+                if p.returncode != 1 or changed:
+                    v.violation("error-run-wrote", "erroneous run (step %s): status %s, outputs changed: %r" % (kind, p.returncode, changed), rp)
                 continue
             if p.returncode != 0:
                 v.violation("valid-invocation-failed", "history step %s failed: %s" % (kind, p.stderr.decode()[-200:]), rp)
                 continue
+            # reference: the same source and options in an empty directory
+            ref = make_project(base, "href%d" % k, {"Form.qml": open(src).read()})
+            subprocess.run(cli_args(opts + ["Form.qml"]), cwd=ref, capture_output=True, env=ENV, timeout=120)
+            n_inv += 1
+            refdir = os.path.join(ref, opts_o[1]) if opts_o else ref
             for o in outs:
-                if o not in after:
-                    v.violation("output-missing", "%s missing after %s" % (o, kind), rp)
-                    continue
-                same_content = o in before and before[o][3] == after[o][3]
-                if same_content and before[o][:2] != after[o][:2]:
+                rpath, opath = os.path.join(refdir, o), os.path.join(outdir, o)
+                want = open(rpath, "rb").read() if os.path.exists(rpath) else None
+                got = open(opath, "rb").read() if os.path.exists(opath) else None
+                if want is not None and got is None:
+                    v.violation("output-missing", "%s is missing after step %s although the run exited 0 (a fresh generation writes it)" % (o, kind), rp)
+                elif want is not None and got != want:
+                    v.violation("output-stale", "%s differs from a fresh generation of the current source after step %s" % (o, kind), rp)
+                # (a header left over from an earlier revision when the current run writes none is not judged: the property
+                # speaks about what is created, not about removal)
+                b, a = before.get(rel + o), after.get(rel + o)
+                if b is not None and a is not None and b[3] == a[3] and b[:2] != a[:2]:
                     v.violation("unchanged-output-rewritten", "%s has the same bytes but a new inode/mtime after %s" % (o, kind), rp)
 
     # ------------------------------------------------------------------ crash points and I/O faults (enumerated)
